@@ -161,7 +161,7 @@ Touch(reg, f, x) == IF reg[f] = x THEN reg ELSE [reg EXCEPT ![f] = x, !.st = "NW
 PutData(s, at, xs) ==
   [s EXCEPT !.data = [c \in (DOMAIN s.data) \cup {at + i - 1 : i \in 1..Len(xs)} |->
                         IF c >= at /\ c < at + Len(xs) THEN xs[c - at + 1] ELSE s.data[c]],
-            !.io = IF Len(xs) = 0 THEN s.io ELSE Append(s.io, [k |-> "wdata", at |-> at, len |-> Len(xs)])]
+            !.io = IF Len(xs) = 0 THEN s.io ELSE Append(s.io, [k |-> "wdata", at |-> at, len |-> Len(xs), xs |-> SubSeq(xs, 1, Len(xs))])]   \* (SubSeq: an evaluated tuple, not a lazy function)
 Cell(s, c) == IF c \in DOMAIN s.data THEN s.data[c] ELSE 0
 ReadRange(s, at, len) == [i \in 1..len |-> Cell(s, at + i - 1)]
 ZeroRange(s, at, len) == [s EXCEPT !.data = [c \in {x \in DOMAIN s.data : x < at \/ x >= at + len} |-> s.data[c]]]
